@@ -3,7 +3,7 @@ package main
 // Seeded, type-directed generator of complete Go programs over the core language of C01.
 // Every program is deterministic, terminating (all loops are bounded by construction), carries
 // its own data and prints as it goes with fmt.Println. Shapes that are listed findings
-// (F01, F21–F25) are never produced; they are replayed from KNOWN_FINDINGS.json instead.
+// (F25) are never produced; they are replayed from KNOWN_FINDINGS.json instead.
 
 import (
 	"fmt"
@@ -1157,6 +1157,25 @@ func (g *gen) stmt() {
 			g.line("\tpanic(%q)", g.fresh("boom"))
 			g.line("}")
 		}
+	case k == 28: // named results assigned before a panic, the caller recovers (the shape of F01, repaired by 1b5ab85)
+		x, ok := g.pickVar(tInt, true)
+		if !ok {
+			return
+		}
+		g.f("named-result-recover")
+		arg := g.expr(tInt, 1)
+		g.line("func() {")
+		g.line("\tdefer func() { recover() }()")
+		if sv, ok2 := g.pickVar(tStr, true); ok2 && g.r.Intn(2) == 0 {
+			g.f("named-result-recover-multi")
+			g.line("\t%s, %s = nrQ(%s)", x.name, sv.name, arg)
+			g.line("}()")
+			g.line("fmt.Println(%s, %s)", x.name, sv.name)
+		} else {
+			g.line("\t%s = nrP(%s)", x.name, arg)
+			g.line("}()")
+			g.line("fmt.Println(%s)", x.name)
+		}
 	default:
 		if g.off("print") {
 			return
@@ -1170,7 +1189,7 @@ func (g *gen) stmt() {
 var stmtClass = map[int]string{
 	7: "compound-target", 8: "multi-assign", 9: "method-delete-copy", 12: "if", 13: "for3", 14: "for3", 15: "for-cond",
 	16: "range", 17: "switch", 18: "switch", 19: "break-continue", 20: "goto", 21: "block", 22: "closure-loopvar",
-	23: "multi-value", 24: "call-defer", 25: "early-return", 26: "copy-semantics", 27: "panic",
+	23: "multi-value", 24: "call-defer", 25: "early-return", 26: "copy-semantics", 27: "panic", 28: "named-result-recover",
 }
 
 func lastLine(s string) string {
@@ -1594,6 +1613,25 @@ func mkA(a int) ([3]int, string) { return [3]int{a, a + 1, a * a}, fmt.Sprint("s
 func mkP1(a int) P { return P{a, -a} }
 
 func mkI(a int) (string, int) { return fmt.Sprint("i", a), a * 3 }
+
+// named results assigned before a panic, and changed by a deferred closure (construct named-result-recover)
+func nrP(a int) (r int) {
+	r = a * 2
+	if a%2 == 0 {
+		panic("nrP")
+	}
+	r++
+	return
+}
+
+func nrQ(a int) (r int, s string) {
+	r, s = a, "s"
+	defer func() { r += 100 }()
+	if a%3 == 0 {
+		panic(a)
+	}
+	return r + 1, s + "t"
+}
 
 // ix maps any integer to a valid index of a non-empty sequence of length n.
 func ix(i, n int) int {
